@@ -7,6 +7,14 @@
 //   order <src>                      -> <value, object members in the unordered_map's iteration order> | err ...
 //   ser <pretty> <sort> <indent hex> <src> <order|->
 //        -> <hex of serialize(opts)> <1 if the text parses back to an equal value else 0> | order-changed | err ...
+//   pvia <orthrow|str|noexc|safe|pstring|istream> <hex>   the public parse wrappers (default limits)
+//        -> ok <value> | errw <kind> <line> <column>   (the throwing ones; parse_error's message has no offset) | ok n (noexc/safe on failure)
+//   pthrow <limits...> <hex>         Json::parseOrThrow(text, limits)
+//   stream <limits...> <cut,cut,...|-> <hex>   JsonStreamParser: feed the chunks, finish()
+//        -> s <feed() results> <finish()> <ok <value> | err ... of error()>
+//   svia dump <indent> <indent_char> <ensure_ascii> <sort_keys> <src> <order|->   Json::dump(...)
+//   svia <ostream|string> <src> <order|->     operator<< / operator std::string
+//   stackuse <a|o> <depth>           (implementation only) bytes of stack parse+serialize+destroy of `depth` nested containers use
 //   src = t<hex text> (value = parse of the text, default limits)  |  v<value> (built programmatically, members
 //   inserted with operator[] in the order given).
 // value syntax (no blanks): n t f i<decimal>; d<16 hex digits, IEEE-754 bits> s<hex>; [v*] {(s<hex>; v)*}
@@ -14,6 +22,8 @@
 // The text handed to the parser lives in a heap block of exactly its size, so that a read at _text[size()] is
 // an AddressSanitizer report and not a silent read of std::string's terminator.
 #include <algorithm>
+#include <pthread.h>
+#include <sys/mman.h>
 #include <cstdint>
 #include <cstdio>
 #include <cstring>
@@ -250,6 +260,102 @@ static bool loadSrc(const std::string& src, Json& v, std::string& out)
   return false;
 }
 
+// answer of the serializer ops: text + whether it parses back (default limits) to a value equal for Json::operator==
+static std::string serAnswer(const std::string& text, const Json& v)
+{
+  vh::Bytes tb(text.begin(), text.end());
+  Text txt(tb);
+  ParseResult r = Json::parse(txt.sv(), ParseLimits{});
+  bool eq = r.ok && r.value == v;
+  return vh::toHex(text) + (eq ? " 1" : " 0");
+}
+
+static bool checkOrder(const Json& v, const std::string& order)
+{
+  if (order == "-") return true;
+  std::string o;
+  dump(v, false, o);
+  return o == order;
+}
+
+// "JSON parse error at line L, column C: MSG" -> errw <kind> L C
+static std::string showThrown(const std::string& what)
+{
+  unsigned long long l = 0, c = 0;
+  int n = 0;
+  if (std::sscanf(what.c_str(), "JSON parse error at line %llu, column %llu: %n", &l, &c, &n) != 2 || n == 0)
+    return "errw unparsable:" + vh::toHex(what);
+  const char* k = kindOf(what.substr(static_cast<std::size_t>(n)));
+  return std::string("errw ") + (k ? std::string(k) : "unknown:" + vh::toHex(what.substr(static_cast<std::size_t>(n)))) + " " +
+         std::to_string(l) + " " + std::to_string(c);
+}
+
+static bool readLimits(const std::vector<std::string>& t, std::size_t at, ParseLimits& lim)
+{
+  unsigned long long d, a, m, s;
+  if (!vh::parseNat(t[at], d) || !vh::parseNat(t[at + 1], a) || !vh::parseNat(t[at + 2], m) || !vh::parseNat(t[at + 3], s)) return false;
+  lim.depthMax = d;
+  lim.arrayItemsMax = a;
+  lim.membersMax = m;
+  lim.stringLengthMax = s;
+  return true;
+}
+
+// ---- stack use of the recursive descent, measured on a private, pre-painted thread stack
+struct StackJob
+{
+  std::string text;
+  std::size_t depth = 0;
+  bool ok = false;
+};
+static void* stackJobMain(void* p)
+{
+  auto* job = static_cast<StackJob*>(p);
+  ParseLimits lim;
+  lim.depthMax = job->depth + 8;
+  {
+    ParseResult r = Json::parse(std::string_view(job->text), lim);
+    job->ok = r.ok;
+    if (r.ok)
+    {
+      SerializeOptions o;
+      o.pretty = true;
+      std::string out = r.value.serialize(o);
+      Json copy = r.value;
+      job->ok = (copy == r.value) && !out.empty();
+    }
+  } // value destroyed here, still on this stack
+  return nullptr;
+}
+__attribute__((no_sanitize("address"))) static std::size_t paintedLow(const unsigned char* base, std::size_t n)
+{
+  std::size_t i = 0;
+  while (i < n && base[i] == 0xA5) ++i;
+  return i;
+}
+static std::string stackUse(char kind, std::size_t depth)
+{
+  const std::size_t size = std::size_t(64) << 20;
+  void* mem = mmap(nullptr, size, PROT_READ | PROT_WRITE, MAP_PRIVATE | MAP_ANONYMOUS | MAP_STACK, -1, 0);
+  if (mem == MAP_FAILED) return "bad-op";
+  std::memset(mem, 0xA5, size);
+  StackJob job;
+  job.depth = depth;
+  for (std::size_t i = 0; i < depth; ++i) job.text += (kind == 'o') ? "{\"k\":" : "[";
+  job.text += "0";
+  for (std::size_t i = 0; i < depth; ++i) job.text += (kind == 'o') ? "}" : "]";
+  pthread_attr_t at;
+  pthread_attr_init(&at);
+  pthread_attr_setstack(&at, mem, size);
+  pthread_t th;
+  if (pthread_create(&th, &at, stackJobMain, &job) != 0) { munmap(mem, size); return "bad-op"; }
+  pthread_join(th, nullptr);
+  pthread_attr_destroy(&at);
+  std::size_t untouched = paintedLow(static_cast<const unsigned char*>(mem), size);
+  munmap(mem, size);
+  return std::to_string(size - untouched) + (job.ok ? " 1" : " 0");
+}
+
 static std::string step(const std::vector<std::string>& t)
 {
   try
@@ -298,12 +404,129 @@ static std::string step(const std::vector<std::string>& t)
       opt.pretty = t[1] == "1";
       opt.sortKeys = t[2] == "1";
       opt.indent = std::string(ind.begin(), ind.end());
-      std::string text = v.serialize(opt);
-      vh::Bytes tb(text.begin(), text.end());
-      Text txt(tb);
-      ParseResult r = Json::parse(txt.sv(), ParseLimits{});
-      bool eq = r.ok && r.value == v;
-      return vh::toHex(text) + (eq ? " 1" : " 0");
+      return serAnswer(v.serialize(opt), v);
+    }
+    if (t.size() == 3 && t[0] == "pvia")
+    {
+      vh::Bytes b;
+      if (!vh::ofHex(t[2], b)) return "bad-op";
+      const std::string text(b.begin(), b.end());
+      const std::string& w = t[1];
+      try
+      {
+        Json v;
+        if (w == "orthrow") v = Json::parseOrThrow(text);
+        else if (w == "str") v = Json::parse(text, nullptr, true);
+        else if (w == "noexc") v = Json::parse(text, nullptr, false);
+        else if (w == "safe") v = Json::safe_parse(text);
+        else if (w == "pstring") v = Json::parseString(text);
+        else if (w == "istream") { std::istringstream is(text); is >> v; }
+        else return "bad-op";
+        std::string o = "ok ";
+        dump(v, true, o);
+        return o;
+      }
+      catch (const Json::parse_error& e)
+      {
+        return showThrown(e.what());
+      }
+    }
+    if (t.size() == 6 && t[0] == "pthrow")
+    {
+      ParseLimits lim;
+      vh::Bytes b;
+      if (!readLimits(t, 1, lim) || !vh::ofHex(t[5], b)) return "bad-op";
+      Text txt(b);
+      try
+      {
+        Json v = Json::parseOrThrow(txt.sv(), lim);
+        std::string o = "ok ";
+        dump(v, true, o);
+        return o;
+      }
+      catch (const Json::parse_error& e)
+      {
+        return showThrown(e.what());
+      }
+    }
+    if (t.size() == 7 && t[0] == "stream")
+    {
+      ParseLimits lim;
+      vh::Bytes b;
+      if (!readLimits(t, 1, lim) || !vh::ofHex(t[6], b)) return "bad-op";
+      std::vector<std::size_t> cuts;
+      if (t[5] != "-")
+      {
+        std::istringstream cs(t[5]);
+        std::string c;
+        while (std::getline(cs, c, ','))
+        {
+          unsigned long long x;
+          if (!vh::parseNat(c, x)) return "bad-op";
+          cuts.push_back(static_cast<std::size_t>(x));
+        }
+      }
+      iora::parsers::JsonStreamParser sp(lim);
+      std::string bits;
+      std::size_t off = 0;
+      cuts.push_back(b.size());
+      for (std::size_t k = 0; k < cuts.size(); ++k)
+      {
+        std::size_t hi = (k + 1 == cuts.size()) ? b.size() : std::min(std::max(cuts[k], off), b.size());
+        Text chunk(vh::Bytes(b.begin() + static_cast<std::ptrdiff_t>(off), b.begin() + static_cast<std::ptrdiff_t>(hi)));
+        bits += sp.feed(chunk.sv()) ? '1' : '0';
+        off = hi;
+      }
+      bool fin = sp.finish();
+      std::string state;
+      if (sp.complete())
+      {
+        state = "ok ";
+        dump(sp.value(), true, state);
+      }
+      else
+      {
+        ParseResult r;
+        r.error = sp.error();
+        state = showErr(r);
+      }
+      return "s " + bits + (fin ? " 1 " : " 0 ") + state;
+    }
+    if (t.size() == 8 && t[0] == "svia" && t[1] == "dump")
+    {
+      long long indent = std::stoll(t[2]);
+      unsigned long long ch;
+      if (!vh::parseNat(t[3], ch) || ch > 255 || (t[5] != "0" && t[5] != "1")) return "bad-op";
+      Json v;
+      std::string out;
+      if (!loadSrc(t[6], v, out)) return out;
+      if (!checkOrder(v, t[7])) return "order-changed";
+      return serAnswer(v.dump(static_cast<int>(indent), static_cast<char>(ch), t[4] == "1", t[5] == "1"), v);
+    }
+    if (t.size() == 4 && t[0] == "svia")
+    {
+      Json v;
+      std::string out;
+      if (!loadSrc(t[2], v, out)) return out;
+      if (!checkOrder(v, t[3])) return "order-changed";
+      if (t[1] == "ostream")
+      {
+        std::ostringstream os;
+        os << v;
+        return serAnswer(os.str(), v);
+      }
+      if (t[1] == "string")
+      {
+        std::string sv = static_cast<std::string>(v);
+        return serAnswer(sv, v);
+      }
+      return "bad-op";
+    }
+    if (t.size() == 3 && t[0] == "stackuse")
+    {
+      unsigned long long d;
+      if ((t[1] != "a" && t[1] != "o") || !vh::parseNat(t[2], d) || d > 2000000) return "bad-op";
+      return stackUse(t[1][0], static_cast<std::size_t>(d));
     }
     return "bad-op";
   }
